@@ -11,8 +11,10 @@ import SynthVerif.Props.C20
 * `no_ringing`: hence with the input held and the coefficients unchanged the output sequence is monotone from the
   first step on: it never reverses direction, so it cannot oscillate around the target.
 * `bounded_partial`: for inputs bounded by `M` the output stays within `[-2M, 2M]` under any `set_time` schedule
-  (coarse form of the range clause: enough to exclude overflow in every step; the property's tight bound
-  "range of the inputs ± f32 resolution of the filter" is checked by the oracle only — see DESIGN.md).
+  (coarse form of the range clause: enough to exclude overflow in every step).
+* Part 2, `C13Range.lean`: `range_tight` (the property's tight bound "range of the inputs ± f32 resolution of the
+  filter", for every input sequence and `set_time` schedule) and `held_input_converges` (geometric settling on a
+  held input down to that resolution).
 -/
 namespace C13
 open F32 Glide
@@ -51,13 +53,19 @@ theorem two_pi_bounds : 6 ≤ (mul two pi32).val ∧ (mul two pi32).val ≤ 7 :=
 theorem minFc_val : (ofRat (1 / 10)).isFin = true ∧ (1:ℚ) / 16 ≤ (ofRat (1 / 10)).val ∧ (ofRat (1 / 10)).val ≤ 1 / 8 ∧
     ofRat (1 / 10) = .fin (ofRat (1 / 10)).val false := by decide +kernel
 
+/-- the smoothing coefficient `mkCoeffs` computes, as a function of the rational values of `fs` and `f0`:
+`ω = fl(fl(2π·f0)/fs)`, `α = fl(ω / fl(ω + 1))` -/
+def omegaQ (σ φ : ℚ) : ℚ := rnd (rnd ((mul two pi32).val * φ) / σ)
+def alphaQ (σ φ : ℚ) : ℚ := rnd (omegaQ σ φ / rnd (omegaQ σ φ + 1))
+
 /-- `from_params(SinglePoleLowPassApprox)`: for `0 < f0`, `2·f0 ≤ fs ≤ 2^16`, `f0 ≥ 1/16` the result is a one-pole
-with `2^-21 ≤ b0 ≤ 1`, `−1 ≤ a1 ≤ 0` and `|a1| ≤ 1 − b0 + 2^-25` -/
-theorem mkCoeffs_ok (σ φ : ℚ) (ns nf : Bool) (hσ : σ ≤ 2 ^ 16) (hφ : 1 / 16 ≤ φ) (hn : 2 * φ ≤ σ)
+with `2^-21 ≤ b0 ≤ 1`, `−1 ≤ a1 ≤ 0` and `|a1 − (b0 − 1)| ≤ 2^-25`; `b0 = alphaQ fs f0`, `a1 = fl(b0 − 1)` -/
+theorem mkCoeffs_full (σ φ : ℚ) (ns nf : Bool) (hσ : σ ≤ 2 ^ 16) (hφ : 1 / 16 ≤ φ) (hn : 2 * φ ≤ σ)
     (hrσ : Rep σ) (hrφ : Rep φ) :
     ∃ c, mkCoeffs (.fin σ ns) (.fin φ nf) = some c ∧ c.a2 = zero ∧ c.b1 = zero ∧ c.b2 = zero ∧
       c.a1.isFin = true ∧ c.b0.isFin = true ∧ 2 ^ (-21:ℤ) ≤ c.b0.val ∧ c.b0.val ≤ 1 ∧
-      -1 ≤ c.a1.val ∧ c.a1.val ≤ 0 ∧ -c.a1.val ≤ 1 - c.b0.val + 2 ^ (-25:ℤ) := by
+      -1 ≤ c.a1.val ∧ c.a1.val ≤ 0 ∧ -c.a1.val ≤ 1 - c.b0.val + 2 ^ (-25:ℤ) ∧
+      1 - c.b0.val - 2 ^ (-25:ℤ) ≤ -c.a1.val ∧ c.b0.val = alphaQ σ φ ∧ c.a1.val = rnd (c.b0.val - 1) := by
   have hφ0 : 0 < φ := lt_of_lt_of_le (by norm_num) hφ
   have hσ0 : 0 < σ := by linarith
   -- the guards
@@ -148,10 +156,22 @@ theorem mkCoeffs_ok (σ φ : ℚ) (ns nf : Bool) (hσ : σ ≤ 2 ^ 16) (hφ : 1 
         b0 := div (div (mul (mul two pi32) (F32.fin φ nf)) (F32.fin σ ns)) (add (div (mul (mul two pi32) (F32.fin φ nf)) (F32.fin σ ns)) one),
         b1 := zero, b2 := zero } := by
     simp only [mkCoeffs, g1, g2, g3, Bool.not_true, Bool.or_self, Bool.false_eq_true, ↓reduceIte]
-  refine ⟨_, hmk, rfl, rfl, rfl, s1, a1f, αlo, αhi, ?_, ?_, ?_⟩
+  refine ⟨_, hmk, rfl, rfl, rfl, s1, a1f, αlo, αhi, ?_, ?_, ?_, ?_, ?_, s2'⟩
   · rw [s2']; exact a1lo
   · rw [s2']; exact a1hi
   · rw [s2']; have := (abs_le.mp a1err).1; linarith
+  · rw [s2']; have := (abs_le.mp a1err).2; linarith
+  · show α = alphaQ σ φ
+    rw [a1v]; unfold alphaQ omegaQ; rw [← hK, ← o2]
+
+theorem mkCoeffs_ok (σ φ : ℚ) (ns nf : Bool) (hσ : σ ≤ 2 ^ 16) (hφ : 1 / 16 ≤ φ) (hn : 2 * φ ≤ σ)
+    (hrσ : Rep σ) (hrφ : Rep φ) :
+    ∃ c, mkCoeffs (.fin σ ns) (.fin φ nf) = some c ∧ c.a2 = zero ∧ c.b1 = zero ∧ c.b2 = zero ∧
+      c.a1.isFin = true ∧ c.b0.isFin = true ∧ 2 ^ (-21:ℤ) ≤ c.b0.val ∧ c.b0.val ≤ 1 ∧
+      -1 ≤ c.a1.val ∧ c.a1.val ≤ 0 ∧ -c.a1.val ≤ 1 - c.b0.val + 2 ^ (-25:ℤ) ∧
+      1 - c.b0.val - 2 ^ (-25:ℤ) ≤ -c.a1.val := by
+  obtain ⟨c, h0, h1, h2, h3, h4, h5, h6, h7, h8, h9, h10, h11, _, _⟩ := mkCoeffs_full σ φ ns nf hσ hφ hn hrσ hrφ
+  exact ⟨c, h0, h1, h2, h3, h4, h5, h6, h7, h8, h9, h10, h11⟩
 
 /-! ### the invariant of every `set_time` / `process` history -/
 
@@ -169,6 +189,7 @@ structure CInv (g : Glide) (σ : ℚ) (ns : Bool) : Prop where
   a1lo : -1 ≤ g.coeffs.a1.val
   a1hi : g.coeffs.a1.val ≤ 0
   sum : -g.coeffs.a1.val ≤ 1 - g.coeffs.b0.val + 2 ^ (-25:ℤ)
+  sum' : 1 - g.coeffs.b0.val - 2 ^ (-25:ℤ) ≤ -g.coeffs.a1.val
 
 theorem rep_half {σ : ℚ} (h : Rep σ) (h1 : 1 ≤ σ) : Rep (σ / 2) := by
   obtain ⟨m, e, rfl, hm, he⟩ := h
@@ -222,14 +243,14 @@ theorem new_inv (σ : ℚ) (ns : Bool) (lo : 100 ≤ σ) (hi : σ ≤ 48000) (hr
       have : σ / 2 ≠ 0 := by positivity
       simpa using this
     rw [if_neg hov, hne]; simp
-  obtain ⟨c, hc, c1, c2, c3, c4, c5, c6, c7, c8, c9, c10⟩ :=
+  obtain ⟨c, hc, c1, c2, c3, c4, c5, c6, c7, c8, c9, c10, c11⟩ :=
     mkCoeffs_ok σ (σ / 2) ns false (by linarith) (by linarith) (by linarith) hrep hhalf
   have hnew : Glide.new (.fin σ ns) = some
       { minFc := ofRat (1 / 10), maxFc := .fin (σ / 2) false, fs := .fin σ ns, coeffs := c, x1 := zero, x2 := zero,
         y1 := zero, y2 := zero, cachedT := .fin (-1) false } := by
     simp only [Glide.new, hd, hc]
   refine ⟨_, hnew, ?_, rfl, rfl, rfl, rfl⟩
-  exact ⟨rfl, lo, hi, hrep, rfl, rfl, ⟨c1, c2, c3, c4, c5⟩, c6, c7, c8, c9, c10⟩
+  exact ⟨rfl, lo, hi, hrep, rfl, rfl, ⟨c1, c2, c3, c4, c5⟩, c6, c7, c8, c9, c10, c11⟩
 
 /-- **every `set_time` call** — any f32 argument — succeeds and preserves the invariant; the filter memory is
 untouched -/
@@ -270,11 +291,11 @@ theorem setTime_inv (g : Glide) (σ : ℚ) (ns : Bool) (h : CInv g σ ns) (t : F
     | fin φ nf =>
       rw [hf] at hr hrep
       simp only [val_fin] at hr hrep
-      obtain ⟨c, hc, c1, c2, c3, c4, c5, c6, c7, c8, c9, c10⟩ :=
+      obtain ⟨c, hc, c1, c2, c3, c4, c5, c6, c7, c8, c9, c10, c11⟩ :=
         mkCoeffs_ok σ φ ns nf (by linarith [h.hi]) (by linarith [hr.2.1]) (by linarith [hr.2.2]) h.rep hrep
       rw [h.fs, hc]
       refine ⟨_, rfl, ?_, rfl, rfl, rfl, rfl⟩
-      exact ⟨rfl, h.lo, h.hi, h.rep, h.minFc, h.maxFc, ⟨c1, c2, c3, c4, c5⟩, c6, c7, c8, c9, c10⟩
+      exact ⟨rfl, h.lo, h.hi, h.rep, h.minFc, h.maxFc, ⟨c1, c2, c3, c4, c5⟩, c6, c7, c8, c9, c10, c11⟩
 
 /-- **coefficient signs in every reachable configuration** -/
 theorem coeff_sign (g : Glide) (σ : ℚ) (ns : Bool) (h : CInv g σ ns) :
@@ -358,7 +379,7 @@ theorem process_inv (g : Glide) (σ : ℚ) (ns : Bool) (M : ℚ) (hM : 1 ≤ M) 
       ⟨by rw [p7]; exact h.one.a2, by rw [p7]; exact h.one.b1, by rw [p7]; exact h.one.b2,
        by rw [p7]; exact h.one.a1f, by rw [p7]; exact h.one.b0f⟩,
       by rw [p7]; exact h.b0lo, by rw [p7]; exact h.b0hi, by rw [p7]; exact h.a1lo, by rw [p7]; exact h.a1hi,
-      by rw [p7]; exact h.sum⟩
+      by rw [p7]; exact h.sum, by rw [p7]; exact h.sum'⟩
   · refine ⟨by rw [p4]; exact hx, by rw [p5]; exact f1, by rw [p3]; exact p1, by rw [p6]; exact f3, ?_⟩
     rw [p3]; exact hbound
 
